@@ -161,12 +161,14 @@ def run(ctx):
             px = bytes(rng.randrange(1, 256) for _ in range(width * height))
             locked, tracking, scale = rng.random() < 0.5, rng.random() < 0.5, rng.randrange(0, 5)
             p = MP()
-            p.map_id, p.scale, p.icons = mid, scale, []
+            icons = [(rng.randrange(0, 30), rng.randrange(0, 16), (rng.randrange(-128, 128), rng.randrange(-128, 128)),
+                      rng.choice([None, 'a', 'Home'])) for _ in range(rng.choice([0, 0, 1, 2, 3]))]
+            p.map_id, p.scale, p.icons = mid, scale, [MP.MapIcon(*ic) for ic in icons]
             p.is_tracking_position, p.is_locked = tracking, locked
             p.width, p.height = width, height
             p.offset = (ox, oy) if width else None
             p.pixels = px if width else None
-            hist.append((mid, width, height, ox, oy, locked, tracking, scale))
+            hist.append((mid, width, height, ox, oy, locked, tracking, scale, len(icons)))
             try:
                 p.apply_to_map_set(ms)
             except Exception as e:
@@ -175,7 +177,16 @@ def run(ctx):
             st = ref.setdefault(mid, {'px': bytearray(128 * 128)})
             for i, b in enumerate(px):
                 st['px'][(ox + i % width) + 128 * (oy + i // width)] = b
-            st.update(locked=locked, tracking=tracking, scale=scale)
+            st.update(locked=locked, tracking=tracking, scale=scale, icons=icons)
+            # the icons of EVERY tracked map after every packet (a packet for one map leaves the others alone)
+            wrong = [m_ for m_, st_ in ref.items()
+                     if [(ic.type, ic.direction, tuple(ic.location), ic.display_name) for ic in ms.maps_by_id[m_].icons] != st_['icons']]
+            if wrong:
+                ctx.violation('after packet #%d (for map %d) of a map history, the icons of map(s) %r differ from an in-order replay '
+                              '(map %d shows %d icons, replay has %d)' % (len(hist), mid, wrong, wrong[0],
+                                                                         len(ms.maps_by_id[wrong[0]].icons), len(ref[wrong[0]]['icons'])),
+                              {'history': hist}, key={'maphist-icons': hist})
+                break
         ctx.case(('maphist', tuple(hist)))
         for mid, st in ref.items():
             m = ms.maps_by_id.get(mid)
@@ -339,6 +350,7 @@ def run(ctx):
         if c is not U.MutableRecord and c not in rec_classes:
             rec_classes.append(c)
     ctx.extra['record_classes'] = len(rec_classes)
+    built = []
     for c in rec_classes:
         slots = []
         for k in reversed(c.__mro__):
@@ -377,6 +389,29 @@ def run(ctx):
         if bad:
             ctx.violation('record class %s (slots %r): %s' % (c.__name__, slots, bad), {'class': c.__name__, 'slots': slots},
                           key={'recclass': c.__name__})
+        built.append((c, slots, r0))
+    # records of DIFFERENT classes (related by inheritance or not) that agree on the fields they share: == is symmetric,
+    # and whenever it answers "equal" the two hash equally and have the same fields with the same values
+    for (c1, s1, a_), (c2, s2, b_) in itertools.permutations(built, 2):
+        ctx.case(('recpair', c1.__name__, c2.__name__))
+        try:
+            e12, e21 = (a_ == b_), (b_ == a_)
+            n12 = a_ != b_
+        except Exception:
+            continue                      # raising on a foreign operand is not an answer
+        bad = None
+        if bool(e12) != bool(e21):
+            bad = '== is not symmetric (%r one way, %r the other)' % (e12, e21)
+        elif bool(n12) == bool(e12):
+            bad = '!= is not the negation of =='
+        elif e12 and hash(a_) != hash(b_):
+            bad = 'they compare equal but hash differently'
+        elif e12 and sorted(s1) != sorted(s2):
+            bad = 'they compare equal although their fields differ (%r vs %r): not a field-wise comparison' % (s1, s2)
+        if bad:
+            ctx.violation('records of classes %s and %s (%s): %s' % (
+                c1.__name__, c2.__name__, 'one derives from the other' if issubclass(c1, c2) or issubclass(c2, c1) else 'unrelated', bad),
+                {'classes': [c1.__name__, c2.__name__]}, key={'recpair': sorted([c1.__name__, c2.__name__])})
     V = U.Vector
     P = T.Position
     pts = [(0, 0, 0), (1, -2, 3), (2 ** 40, -7, 5), (1.5, 2.25, -0.5), (3, 7, 9), (2 ** 53 + 1, 49, -49)]
